@@ -8,7 +8,8 @@ MHEADER = """From Coq Require Import ZArith QArith List.
 From Measured Require Import Model.Measure Model.Check.
 Import ListNotations.
 """
-FAM = {"L": [[[None, "meter", 1]], [["kilo", "meter", 1]], [["milli", "meter", 1]], [[None, "foot", 1]], [[None, "inch", 1]]],
+FAM = {"L": [[[None, "meter", 1]], [["kilo", "meter", 1]], [["milli", "meter", 1]], [[None, "foot", 1]], [[None, "inch", 1]], [[None, "hand", 1]], [[None, "mile", 1]],
+             [[None, "yard", 1]], [[None, "fathom", 1]]],
        "T": [[[None, "second", 1]], [[None, "minute", 1]], [["milli", "second", 1]], [[None, "hour", 1]]],
        "M": [[[None, "gram", 1]], [["kilo", "gram", 1]], [[None, "pound", 1]]],
        "A": [[[None, "degree", 1]], [[None, "radian", 1]], [[None, "arcminute", 1]]],
